@@ -107,3 +107,32 @@ pub fn c07_recover(args: &[String], _seed: u64) -> Vec<String> {
     } } } } }
     vec![format!("{{\"oracle\":\"c07_recover\",\"status\":\"pass\",\"evaluations\":{n},\"worst_rounds_minus_retry_limit\":{worst}}}")]
 }
+
+/// C08 (known finding F8): a user call request_diagnostics() between a Data_Exchange request and its reply makes the
+/// next request a *different service* with the *same* frame count bit.  args ignored; single scripted history.
+pub fn c08_user_diag(_args: &[String], _seed: u64) -> Vec<String> {
+    let mut params = crate::fdl::Parameters::default();
+    params.max_retry_limit = 3;
+    let fdl = crate::fdl::FdlActiveStation::new(params);
+    let dp = crate::dp::__verif_native_master::vn_master_state();
+    let mut pi_i = [0u8; 2];
+    let mut pi_q = [0u8; 2];
+    let mut p = Peripheral::new(8, PeripheralOptions::default(), &mut pi_i[..], &mut pi_q[..]);
+    p.state = PeripheralState::DataExchange;
+    p.fcb = crate::fdl::FrameCountBit::High;
+    let now = crate::time::Instant::ZERO;
+    let send = |p: &mut Peripheral| -> (Option<u8>, u8) {
+        let mut buf = [0u8; 256];
+        let res = p.transmit_telegram(now, &dp, &fdl, crate::fdl::TelegramTx::new(&mut buf), crate::fdl::HighPrioOnly::No).ok().unwrap();
+        match crate::fdl::Telegram::deserialize(&buf[..res.bytes_sent()]).unwrap().unwrap().0 { crate::fdl::Telegram::Data(d) => (d.h.dsap, d.h.fc.to_byte() & 0x30), _ => (None, 0) }
+    };
+    let (svc1, fcb1) = send(&mut p);
+    p.request_diagnostics();                       // user call between request and reply
+    let data = [1u8, 2];
+    let reply = crate::fdl::Telegram::Data(crate::fdl::DataTelegram { h: crate::fdl::DataTelegramHeader { da: 1, sa: 8, dsap: None, ssap: None,
+        fc: crate::fdl::FunctionCode::Response { state: crate::fdl::ResponseState::Slave, status: crate::fdl::ResponseStatus::Ok } }, pdu: &data });
+    let _ = p.receive_reply(now, &dp, &fdl, reply);
+    let (svc2, fcb2) = send(&mut p);
+    let bad = fcb1 == fcb2 && svc1 != svc2;
+    vec![format!("{{\"oracle\":\"c08_user_diag\",\"status\":\"{}\",\"input\":[],\"observed\":\"request 1: DSAP {svc1:?} FCB/FCV bits {fcb1:#x}; user request_diagnostics(); well-formed data reply delivered; request 2: DSAP {svc2:?} FCB/FCV bits {fcb2:#x}\"}}", if bad { "fail" } else { "pass" })]
+}
